@@ -36,6 +36,7 @@ func checkC14(c *Check) {
 	importRules(c, "C15", func(s *Check) { c15FileStampIsMTime(s, "R12") }, map[string]bool{"R12": true}, "R3h")
 	c14RegexpNoNewGroup(c, "R5b")
 	c14FullMatchAnchorsWhole(c, "R5c")
+	c14KeyColumnUnique(c, "R8")
 	c14Providers(c)
 	c14Mapping(c)
 	c14Gate(c)
